@@ -345,14 +345,16 @@ def random_valid_spec(r, rules_verifier, max_n=10):
 def same_size_trees(r, rules_verifier, n, count):
     """`count` random trees on n nodes (n - 1 edges each), nodes listed in a random order"""
     out = []
+    tries = 0
     while len(out) < count:
+        tries += 1
         perm = list(range(n))
         r.shuffle(perm)
         par = [[] for _ in range(n)]
         for a in range(1, n):
             par[perm[r.randrange(a)]].append(perm[a])
         names = [r.choice(NODE_TYPES) for _ in range(n)]
-        if rules_verifier(build_graph(par, names)) or len(out) > 200:
+        if rules_verifier(build_graph(par, names)) or tries > 2000:
             out.append((par, names))
     return out
 
@@ -1099,7 +1101,7 @@ def gen_specs(ctx):
             # this encoder yields one number pair per edge and the contextual bandit insists on contexts of one
             # length (>= 1): the unchanged tree raises ValueError from KMeans otherwise (reported, see docs/C02.md);
             # the members are therefore trees with one common node count
-            graphs = same_size_trees(r, ver, r.choice([2, 3, 4, 5, 6, 7]), npop)
+            graphs = same_size_trees(r, ver, r.choice([2, 3, 4, 5, 6]), npop)
         else:
             graphs = [random_valid_spec(r, ver, max_n=8) for _ in range(npop)]
         inds = [{'g': j, 'fit': r.choice([None, 1.0]), 'gen': r.choice([None, 2])} for j in range(npop)]
